@@ -6,6 +6,7 @@ import (
 	"log/slog"
 	"net/http"
 	"net/textproto"
+	"slices"
 	"strconv"
 	"strings"
 	"time"
@@ -237,9 +238,17 @@ func (w *responseWriter) writeHeader(status int) error {
 		if strings.HasPrefix(k, http.TrailerPrefix) {
 			continue
 		}
+		// Connection-specific header fields must not be sent on HTTP/3, see section 4.2 of RFC 9114.
+		// The peer would treat the response as malformed.
+		if slices.Contains(invalidHeaderFields[:], strings.ToLower(k)) {
+			continue
+		}
 		for index := range v {
 			name := strings.ToLower(k)
 			value := v[index]
+			if name == "te" && value != "trailers" {
+				continue
+			}
 			if err := enc.WriteField(qpack.HeaderField{Name: name, Value: value}); err != nil {
 				return err
 			}
